@@ -1,4 +1,5 @@
 use super::Value;
+use std::cmp::Ordering;
 
 pub(super) fn value_as_f64(value: &Value) -> Option<f64> {
     match value {
@@ -6,6 +7,30 @@ pub(super) fn value_as_f64(value: &Value) -> Option<f64> {
         Value::Float(v) => Some(*v),
         _ => None,
     }
+}
+
+/// Exact ordering of an integer against a float, without rounding the integer to `f64`
+/// (which is lossy above 2^53). Returns `None` iff the float is NaN.
+pub(super) fn compare_int_float(int_value: i64, float_value: f64) -> Option<Ordering> {
+    if float_value.is_nan() {
+        return None;
+    }
+    // 2^63: every i64 is strictly below it and at or above its negation.
+    const TWO_POW_63: f64 = 9_223_372_036_854_775_808.0;
+    if float_value >= TWO_POW_63 {
+        return Some(Ordering::Less);
+    }
+    if float_value < -TWO_POW_63 {
+        return Some(Ordering::Greater);
+    }
+    // The integral part of the float now fits in i64 exactly.
+    let truncated = float_value.trunc();
+    let ord = int_value.cmp(&(truncated as i64));
+    if ord != Ordering::Equal {
+        return Some(ord);
+    }
+    // Same integral part: the fraction decides.
+    truncated.partial_cmp(&float_value)
 }
 
 pub(super) fn value_as_i64(value: &Value) -> Option<i64> {
